@@ -105,7 +105,9 @@ PROPS["C18"] = dict(
 PROPS["C16"] = dict(
     pkgs=["fractal/protocol", "fractal/connection"], level="exploration", death_is_violation=True,
     quick=dict(checks=6000, shards=8, timeout=500),
-    thorough=dict(checks=240000, shards=16, timeout=2400),
+    thorough=dict(checks=240000, shards=16, timeout=2400, fuzz_seconds=240),
+    fuzz=dict(pkg="fractal/protocol", target="FuzzVerif_C16", workers=8,
+              rule="[native-fuzz] go test -fuzz (coverage guided, thorough tier only) over byte strings, corpus = valid encodings of all six types and hostile constants with every type prefix; same oracle as hostile-bytes; evaluations = executions, non-trivial = inputs that increased coverage"),
     technique="property-based testing: round trip of generated messages of all six types; totality on arbitrary bytes and structure-aware JSON mutations with recover-inside-property; re-encode fixed point; measured allocation bound at the receive limit",
     level_text="Generated message values must survive Encode/Decode on every wire field; hostile inputs (random bytes, one structural mutation of a valid encoding, oversized inputs up to 2 MiB) must yield a message or an error, never a panic, and accepted inputs must be well-formed (re-encodable fixed point). Exploration.",
     level_note="Trusted: mass-core chiapos (BLS element parsing through cgo) is part of the decoded path and is exercised, not modelled; encoding/json.",
